@@ -282,12 +282,14 @@ fn de_case(elems: &[Arg], hint_mode: i128, sign_tok: i128, sign_kind: i128) -> V
         0 => Tok::I8(sign_tok as i8),
         1 => Tok::I64(sign_tok as i64),
         2 => Tok::U32(sign_tok.unsigned_abs() as u32),
+        4 => Tok::U64(sign_tok as i64 as u64), // e.g. -1 presented as the unsigned value u64::MAX: out of range, not Minus
         _ => Tok::Str("+".into()),
     };
     let sign_val: Option<i128> = match sign_kind {
         0 => Some(sign_tok as i8 as i128),
         1 => Some(sign_tok as i64 as i128),
         2 => Some(sign_tok.unsigned_abs() as u32 as i128),
+        4 => Some(sign_tok as i64 as u64 as i128),
         _ => None,
     };
     let sign_ok = matches!(sign_val, Some(-1) | Some(0) | Some(1));
@@ -303,6 +305,28 @@ fn de_case(elems: &[Arg], hint_mode: i128, sign_tok: i128, sign_kind: i128) -> V
         (Err(_), false) => {}
         (Ok(v), false) => return Err(format!("BigInt::deserialize accepted an invalid {} and returned {}", if sign_ok { "digit sequence" } else { "sign" }, v)),
         (Err(e), true) => return Err(format!("BigInt::deserialize rejected a valid (sign, sequence) pair: {}", e)),
+    }
+    // the in-place form (Deserialize::deserialize_in_place) over an existing value must give the same result
+    {
+        let prev_digits: Vec<u32> = (0..(hint_mode as usize % 3) * 2 + 1).map(|i| 0x9000_0000u32 + i as u32).collect();
+        for prev in [BigUint::new(vec![]), BigUint::new(vec![7]), BigUint::new(prev_digits.clone())] {
+            let mut place = prev.clone();
+            let r = must_return("BigUint::deserialize_in_place", || <BigUint as Deserialize>::deserialize_in_place(De(&seq), &mut place))?;
+            match (r, valid) {
+                (Ok(()), true) => ctx(eq_bu(&place, &n), "BigUint::deserialize_in_place over an existing value")?,
+                (Err(_), false) => {}
+                (Ok(()), false) => return Err("BigUint::deserialize_in_place accepted a sequence with a non-u32 element".into()),
+                (Err(e), true) => return Err(format!("BigUint::deserialize_in_place rejected a valid u32 sequence: {}", e)),
+            }
+        }
+        let mut place = BigInt::from(-5);
+        let r = must_return("BigInt::deserialize_in_place", || <BigInt as Deserialize>::deserialize_in_place(De(&pair), &mut place))?;
+        match (r, valid && sign_ok) {
+            (Ok(()), true) => ctx(eq_bi(&place, &wanti), "BigInt::deserialize_in_place over an existing value")?,
+            (Err(_), false) => {}
+            (Ok(()), false) => return Err("BigInt::deserialize_in_place accepted an invalid pair".into()),
+            (Err(e), true) => return Err(format!("BigInt::deserialize_in_place rejected a valid pair: {}", e)),
+        }
     }
     // a too-short / too-long tuple must be an error, never a panic
     let short = Tok::Tuple(1, vec![Tok::I8(1)]);
@@ -329,7 +353,7 @@ impl Property for C17 {
         "C17"
     }
     fn rule(&self) -> &'static str {
-        "Cases: ser (a value: the token stream emitted through a recording Serializer must be exactly seq(Some(len)) of the base-2^32 digits, least significant first, no trailing zero, zero = empty sequence; BigInt = tuple(i8 sign in {-1,0,1}, that sequence); deserializing the emitted stream returns the value) and de (a generated token stream fed through a replaying Deserializer: u32 lists with trailing zeros, odd/even length, empty; elements given as u32 or u64 tokens (in or out of u32 range) or a string; size hints exact / absent / half / usize::MAX / one too many / zero; sign tokens -1,0,1 and invalid values as i8, i64, u32 or a string; inconsistent sign vs magnitude; a 1-element tuple). Results must be the canonical denoted value, or an error for invalid signs / non-u32 elements, never a panic. Values include top u64 digits with a zero high half and with a high half of 0xFFFFFFFF / low half all ones. Non-trivial: >= 2 u32 digits, or a padded or inconsistent stream."
+        "Cases: ser (a value: the token stream emitted through a recording Serializer must be exactly seq(Some(len)) of the base-2^32 digits, least significant first, no trailing zero, zero = empty sequence; BigInt = tuple(i8 sign in {-1,0,1}, that sequence); deserializing the emitted stream returns the value) and de (a generated token stream fed through a replaying Deserializer: u32 lists with trailing zeros, odd/even length, empty; elements given as u32 or u64 tokens (in or out of u32 range) or a string; size hints exact / absent / half / usize::MAX / one too many / zero; sign tokens -1,0,1 and invalid values as i8, i64, u32 or a string; sign presented as an unsigned 64-bit token (so -1 arrives as u64::MAX); inconsistent sign vs magnitude; a 1-element tuple; and the same streams through Deserialize::deserialize_in_place over empty, short and long existing values). Results must be the canonical denoted value, or an error for invalid signs / non-u32 elements, never a panic. Values include top u64 digits with a zero high half and with a high half of 0xFFFFFFFF / low half all ones. Non-trivial: >= 2 u32 digits, or a padded or inconsistent stream."
     }
     fn technique(&self) -> &'static str {
         "property-based testing (proptest) with a hand-written recording Serializer and token-replaying Deserializer (serde data model), RefInt digits as the oracle"
@@ -348,7 +372,7 @@ impl Property for C17 {
             15 => prop_oneof![any::<u32>().prop_map(|x| x as u64), select(vec![u32::MAX as u64 + 1, u64::MAX])].prop_map(|v| Arg::L(vec![Arg::I(1), Arg::U(v as u128)])),
             5 => Just(Arg::L(vec![Arg::I(2), Arg::U(0)])),
         ];
-        let de = (vec(elem, 0..=9), 0usize..=6, 0i128..=5, prop_oneof![70 => -1i128..=1, 30 => select(vec![2i128, -2, 127, -128, 255, 256, -129])], prop_oneof![70 => Just(0i128), 30 => 0i128..=3]).prop_map(|(mut e, zeros, hint, st, sk)| {
+        let de = (vec(elem, 0..=9), 0usize..=6, 0i128..=5, prop_oneof![70 => -1i128..=1, 30 => select(vec![2i128, -2, 127, -128, 255, 256, -129])], prop_oneof![65 => Just(0i128), 35 => 0i128..=4]).prop_map(|(mut e, zeros, hint, st, sk)| {
             for _ in 0..zeros.saturating_sub(3) {
                 e.push(Arg::L(vec![Arg::I(0), Arg::U(0)]));
             }
